@@ -272,10 +272,14 @@ func BuildSelect(query *Query, slct *sqlparser.Select) error {
 }
 
 func BuildUnion(query *Query, expr *sqlparser.Union) error {
-	leftStatement := expr.Left.(*sqlparser.Select)
-	leftStatement.With = expr.With
-	rightStatement := expr.Right.(*sqlparser.Select)
-	rightStatement.With = expr.With
+	// the branches see the CTEs of the union: on copies, the parsed statement
+	// is shared and only read
+	leftBranch := *expr.Left.(*sqlparser.Select)
+	leftBranch.With = expr.With
+	leftStatement := &leftBranch
+	rightBranch := *expr.Right.(*sqlparser.Select)
+	rightBranch.With = expr.With
+	rightStatement := &rightBranch
 	left, err := Prepare(query.data, leftStatement, query.options)
 	if err != nil {
 		return err
@@ -476,7 +480,10 @@ func BuildJoin(query *Query, joinExpr *sqlparser.JoinTableExpr) error {
 			query.wg.Done()
 		}()
 	}
-	if joinExpr.Condition.On == nil {
+	// (the parsed statement is shared: the workers of a PARALLEL join build the
+	// nested selects of its ON clause from it, all at once. It is only read)
+	on := joinExpr.Condition.On
+	if on == nil {
 		expr := new(sqlparser.AndExpr)
 		expr.Left = sqlparser.BoolVal(true)
 		expr.Right = sqlparser.BoolVal(true)
@@ -494,9 +501,9 @@ func BuildJoin(query *Query, joinExpr *sqlparser.JoinTableExpr) error {
 			}
 
 		}
-		joinExpr.Condition.On = expr
+		on = expr
 	}
-	rs, err := ExecJoin(query, left.from, right.from, left.ident, right.ident, joinExpr.Into, joinExpr.Condition.On, joinExpr.Join)
+	rs, err := ExecJoin(query, left.from, right.from, left.ident, right.ident, joinExpr.Into, on, joinExpr.Join)
 	if err != nil {
 		return err
 	}
